@@ -3,12 +3,12 @@
     Mirror of /repo/tsdb/shard.go:
       MeasurementFields.CreateFieldIfNotExists (LoadOrStore; conflict iff stored type <> new),
       MeasurementFieldSet (CreateFieldsIfNotExists / Delete / IsEmpty),
-      marshalFieldChanges (8-byte little-endian length prefix + protobuf FieldChangeSet;
-        NOTE the source appends a change to the set only inside [if f.Field != nil], so the
-        deletion changes built by MeasurementsToFieldChangeDeletions are never written),
+      marshalFieldChanges (8-byte little-endian length prefix + protobuf FieldChangeSet; every
+        change is logged, the deletions built by MeasurementsToFieldChangeDeletions without Field),
       appendToChangesFile (O_CREATE|O_APPEND, truncate to last known good size, one write),
       readSizePlusBuffer / loadFieldChangeSet / loadAllFieldChanges (stop at a short record),
-      ApplyChanges (fold; error at the first conflicting add; then WriteToFile),
+      ApplyChanges (changes older than the last deletion of their measurement are skipped; fold;
+        error at the first conflicting add; then WriteToFile),
       WriteToFile (tmp + rename, or remove when empty; then remove tmp and the change log),
       MeasurementFieldSet.Close (WriteToFile iff the change log exists),
     of /repo/tsdb/field_validator.go: ValidateAndCreateFields,
@@ -85,8 +85,9 @@ Record pfield := { f_key : name; f_type : N; f_big : bool; f_val : Z }.
 Definition TIME : name := [116; 105; 109; 101]%N.
 Definition T_STRING : N := 3%N.
 
-(** One logged change (internal.MeasurementFieldChange with a non-nil Field). *)
-Record pchange := { pc_meas : name; pc_fname : name; pc_ftype : N; pc_ct : N }.
+(** One logged change (internal.MeasurementFieldChange). *)
+Record pchange := { pc_meas : name; pc_field : bool; pc_fname : name; pc_ftype : N; pc_ct : N }.
+(** [pc_field = false]: the change carries no Field (a measurement deletion). *)
 Definition CT_ADD : N := 0%N.
 Definition CT_DEL : N := 1%N.
 
@@ -106,7 +107,7 @@ Fixpoint vcf (s : schema) (m : name) (fl : list pfield) (created : list pchange)
         match res with
         | Conflict _ => (s, created, VDropped)
         | Created =>
-            vcf s' m r (created ++ [{| pc_meas := m; pc_fname := f_key f; pc_ftype := f_type f; pc_ct := CT_ADD |}]) stripped
+            vcf s' m r (created ++ [{| pc_meas := m; pc_field := true; pc_fname := f_key f; pc_ftype := f_type f; pc_ct := CT_ADD |}]) stripped
         | Existed => vcf s m r created stripped
         end
   end.
@@ -152,9 +153,11 @@ Fixpoint recover_fuel (dec : list N -> option (list pchange)) (fuel : nat) (bs :
   end.
 Definition recover dec (bs : list N) : rec_res := recover_fuel dec (S (length bs)) bs.
 
-(** ApplyChanges' loop.  [inr s] = error at a conflicting add ([s] = what had been applied). *)
+(** ApplyChanges' loop.  [inr s] = error at a conflicting add ([s] = what had been applied).
+    A change without a Field that is not a deletion is skipped. *)
 Definition apply_change (s : schema) (c : pchange) : schema + schema :=
   if N.eqb (pc_ct c) CT_DEL then inl (drop_meas s (pc_meas c))
+  else if negb (pc_field c) then inl s
   else
     let s1 := ensure_meas s (pc_meas c) in
     let '(s', r) := create_field s1 (pc_meas c) (pc_fname c) (pc_ftype c) in
@@ -165,6 +168,18 @@ Fixpoint apply_changes (s : schema) (cs : list pchange) : schema + schema :=
   | [] => inl s
   | c :: r => match apply_change s c with inl s' => apply_changes s' r | inr e => inr e end
   end.
+
+(** A measurement deletion supersedes every earlier change of that measurement: ApplyChanges
+    skips every change whose index is smaller than the index of the last deletion of its
+    measurement. *)
+Definition has_del (m : name) (cs : list pchange) : bool :=
+  existsb (fun c => N.eqb (pc_ct c) CT_DEL && name_eqb (pc_meas c) m) cs.
+Fixpoint live (cs : list pchange) : list pchange :=
+  match cs with
+  | [] => []
+  | c :: r => if has_del (pc_meas c) r then live r else c :: live r
+  end.
+Definition apply_log (s : schema) (cs : list pchange) : schema + schema := apply_changes s (live cs).
 
 (** * The protobuf encoding of FieldChangeSet (proto3, fields in number order) *)
 Fixpoint varint_fuel (fuel : nat) (n : N) : list N :=
@@ -179,7 +194,9 @@ Definition pb_msg (tag : N) (b : list N) : list N := tag :: varint (N.of_nat (le
 Definition pb_int (tag : N) (v : N) : list N := if N.eqb v 0 then [] else tag :: varint v.
 
 Definition pb_enc_change (c : pchange) : list N :=
-  pb_bytes 10 (pc_meas c) ++ pb_msg 18 (pb_bytes 10 (pc_fname c) ++ pb_int 16 (pc_ftype c)) ++ pb_int 24 (pc_ct c).
+  pb_bytes 10 (pc_meas c) ++
+  (if pc_field c then pb_msg 18 (pb_bytes 10 (pc_fname c) ++ pb_int 16 (pc_ftype c)) else []) ++
+  pb_int 24 (pc_ct c).
 Definition pb_enc (cs : list pchange) : list N := concat (map (fun c => pb_msg 10 (pb_enc_change c)) cs).
 
 (** Decoder for the canonical encoding above (anything else: [None]). *)
@@ -228,7 +245,7 @@ Definition pb_dec_change (bs : list N) : option pchange :=
                       match dec_opt_int 16 q1 with
                       | Some (ty, []) =>
                           match dec_opt_int 24 r4 with
-                          | Some (ct, []) => Some {| pc_meas := m; pc_fname := fname; pc_ftype := ty; pc_ct := ct |}
+                          | Some (ct, []) => Some {| pc_meas := m; pc_field := true; pc_fname := fname; pc_ftype := ty; pc_ct := ct |}
                           | _ => None
                           end
                       | _ => None
@@ -239,7 +256,11 @@ Definition pb_dec_change (bs : list N) : option pchange :=
               end
           | None => None
           end
-      | _ => None
+      | _ =>
+          match dec_opt_int 24 r1 with
+          | Some (ct, []) => Some {| pc_meas := m; pc_field := false; pc_fname := []; pc_ftype := 0; pc_ct := ct |}
+          | _ => None
+          end
       end
   | None => None
   end.
@@ -295,10 +316,13 @@ Definition exec_step (st : dstep) (d : disk) : disk :=
   end.
 Definition run (p : list dstep) (d : disk) : disk := fold_left (fun d st => exec_step st d) p d.
 
-(** marshalFieldChanges keeps only changes that carry a Field; a deletion carries none. *)
+(** marshalFieldChanges logs every change; a deletion carries no Field. *)
 Inductive change := ChAdd (c : pchange) | ChDel (m : name).
 Definition marshal_filter (cs : list change) : list pchange :=
-  flat_map (fun c => match c with ChAdd p => [p] | ChDel _ => [] end) cs.
+  map (fun c => match c with
+                | ChAdd p => p
+                | ChDel m => {| pc_meas := m; pc_field := false; pc_fname := []; pc_ftype := 0; pc_ct := CT_DEL |}
+                end) cs.
 
 (** appendToChangesFile for one Save request (no concurrent requests batched). *)
 Definition prog_append (fsize : nat) (payload : list N) (d : disk) : list dstep :=
@@ -317,7 +341,7 @@ Definition load_mem dec (d : disk) : schema * bool :=
   match recover dec (log_bytes d) with
   | RecErr => (base, false)
   | RecOK rs =>
-      match apply_changes base (concat rs) with
+      match apply_log base (concat rs) with
       | inl s => (s, true)
       | inr e => (e, false)
       end
@@ -366,11 +390,12 @@ Fixpoint validate_points (s : schema) (pts : list wpoint)
          match res with VStripped => true | _ => st end)
   end.
 
-(** Engine.WritePoints: every field of every accepted point (also a field named time) becomes
+(** Engine.WritePoints: every field of every accepted point except a field named time becomes
     a value under its key; Cache.WriteMulti rejects a key whose values have mixed types or a
     type other than the stored one, and then the batch is not written to the WAL. *)
 Definition batch_entries (acc : list wpoint) : list (dkey * N) :=
-  flat_map (fun p => map (fun f => ((w_meas p, w_series p, f_key f), f_type f)) (w_fields p)) acc.
+  flat_map (fun p => flat_map (fun f => if name_eqb (f_key f) TIME then []
+                                        else [((w_meas p, w_series p, f_key f), f_type f)]) (w_fields p)) acc.
 Definition key_types (data : dstore) (ents : list (dkey * N)) (k : dkey) : list N :=
   flat_map (fun '(k', t, _) => if dkey_eqb k k' then [t] else []) data ++
   flat_map (fun '(k', t) => if dkey_eqb k k' then [t] else []) ents.
